@@ -156,6 +156,7 @@ Inductive event :=
 | EPoll (h cb path : nat) (status : Z) (prev curr : statbuf)   (* user callback *)
 | EClosed (h : nat)                                            (* close callback *)
 | EStat (path : nat)                                           (* a worker stats [path] *)
+| EIter                                                        (* a loop iteration begins *)
 | EObs (l : list (bool * bool * option nat))                   (* active, closing, getpath *)
 | EFinal (rc : Z) (live : nat).                                (* uv_loop_close, contexts not freed *)
 
@@ -372,8 +373,8 @@ Fixpoint drain (fuel : nat) (s : st) (res : nat -> sres) (beh : nat -> list op) 
       let '(s1, e1) := release s res in
       let '(s2, e2, n2) := iteration s1 beh cnt in
       if alive s2 then
-        let '(s3, e3, n3) := drain f s2 res beh n2 in (s3, e1 ++ e2 ++ e3, n3)
-      else (s2, e1 ++ e2, n2)
+        let '(s3, e3, n3) := drain f s2 res beh n2 in (s3, e1 ++ EIter :: e2 ++ e3, n3)
+      else (s2, e1 ++ EIter :: e2, n2)
   end.
 
 Definition live_ctx (s : st) : nat := length (filter (fun x => negb (c_freed x)) (cs s)).
@@ -398,7 +399,7 @@ Fixpoint run (s : st) (os : list op) (beh : nat -> list op) (cnt : nat) : st * l
   | OAdvance d :: os' => run (set_clock s (clock s + Z.max 0 d)) os' beh cnt
   | ORun :: os' =>
       let '(s1, e1, n1) := iteration s beh cnt in
-      let '(s2, e2) := run s1 os' beh n1 in (s2, e1 ++ e2)
+      let '(s2, e2) := run s1 os' beh n1 in (s2, EIter :: e1 ++ e2)
   | ODrain res :: os' =>
       let '(s1, e1, n1) := drain drain_fuel s res beh cnt in
       let '(s2, e2) := run s1 os' beh n1 in
